@@ -1195,7 +1195,16 @@ class Engine:
         dest = self.place_loc(st, fr, t["dest"], for_write=True) if t.get("dest") is not None else None
         if "indirect" in c:
             fv = self.resolve(st, self.operand(st, fr, c["indirect"]))
-            if isinstance(fv, FnV):
+            if isinstance(fv, FnV) and self.find_body(fv.path) is None and self.models.get(fv.path) is None and self.models.get(strip_generics(getattr(fv, "raw", None) or fv.path)) is None:
+                # no body and no model: a tuple-struct / enum-variant constructor, or a trait function passed by name
+                try:
+                    res = self.call_closure(st, fr, fv, args, t)
+                except Exception:
+                    res = None
+                if res is not None and res is not NotImplemented:
+                    return self.finish_call(st, fr, res, dest, t.get("target"), t)
+                name = rname = "<indirect>"
+            elif isinstance(fv, FnV):
                 name = rname = fv.path
                 # the function item a pointer was made from carries its generic arguments: the call is recorded (and analysed
                 # in place) like a direct call of that instantiation
